@@ -10,6 +10,10 @@ from ..core import Report
 from .. import gen, tracer
 from . import runlevel
 
+# case kinds of corpus/ entries (failing inputs of past regressions) that this module replays on every run
+CORPUS_KINDS = ('history_pair',)
+
+
 
 def _foreign(rng_seed, kind, D=None):
     """Foreign activity in the same process (its results are discarded)."""
